@@ -149,6 +149,7 @@ class DeviceSim(object):
         self.sync_requests = []       # (rid, name, arg)
         self.bytes_in = 0
         self.opens = []               # (t, lid, rid, dest)
+        self.ignored_opens = []
         self.connects = 0
         self.answer_idx = 0
         self.host_cnxn = None
@@ -219,6 +220,9 @@ class DeviceSim(object):
     # -- handshake
     def _on_cnxn(self, p):
         auth = self.cfg.get("auth") or {"mode": "none"}
+        if self.cfg.get("auth_after_first") and self.connects > 1 and auth.get("mode", "none") == "none":
+            auth = {"mode": "never"}           # from the second connection on the device demands authentication
+            self.cfg = dict(self.cfg, auth=auth)
         self.host_maxdata = p.arg1
         self.host_cnxn = p
         if self.cfg.get("mute"):
@@ -324,6 +328,9 @@ class DeviceSim(object):
         if not p.data.endswith(b"\0") or p.data.count(b"\0") != 1:
             self._violation("open-dest-not-nul-terminated", p.brief())
         dest = p.data.rstrip(b"\0")
+        if any(dest.startswith(pre) for pre in (self.cfg.get("ignore_open") or ())):
+            self.ignored_opens.append((self.now(), lid, dest))
+            return            # a service that never answers the OPEN
         rid = self._alloc_rid()
         s = Stream(lid, rid, dest, self.now())
         eager = self.cfg.get("eager_clse")
